@@ -311,7 +311,7 @@ impl<S: Scheduler> Recorder<S> {
 
 /// Called after `Runner::run` returned or unwound to close the last execution's record.
 pub fn finalize(out: &Shared) {
-    let mut rt = out.lock().unwrap();
+    let mut rt = out.lock().unwrap_or_else(|e| e.into_inner());
     if let Some(last) = rt.execs.last_mut() {
         if last.recorded.is_none() {
             last.recorded = Some(schedule_to_vec(&CurrentSchedule::get_schedule()));
@@ -323,12 +323,16 @@ pub fn finalize(out: &Shared) {
 impl<S: Scheduler> Scheduler for Recorder<S> {
     fn new_execution(&mut self) -> Option<Schedule> {
         let out = self.out.clone();
-        let mut rt = out.lock().unwrap();
-        self.close_current(&mut rt);
-        if rt.ended > 0 {
-            rt.calls_after_end += 1;
+        {
+            let mut rt = out.lock().unwrap_or_else(|e| e.into_inner());
+            self.close_current(&mut rt);
+            if rt.ended > 0 {
+                rt.calls_after_end += 1;
+            }
         }
+        // not holding the lock: the inner scheduler may panic (e.g. PCT's "no concurrency" assertion)
         let r = self.inner.new_execution();
+        let mut rt = out.lock().unwrap_or_else(|e| e.into_inner());
         match &r {
             Some(s) => {
                 let mut e = ExecTrace::default();
@@ -399,7 +403,7 @@ impl<S: Scheduler> Scheduler for Recorder<S> {
         }
         let out = self.out.clone();
         {
-            let mut rt = out.lock().unwrap();
+            let mut rt = out.lock().unwrap_or_else(|e| e.into_inner());
             if let Some(e) = rt.execs.last_mut() {
                 if e.stopped {
                     e.calls_after_stop += 1;
@@ -414,7 +418,7 @@ impl<S: Scheduler> Scheduler for Recorder<S> {
                 problems.push(format!("scheduler chose {} which was not offered {:?}", c, offered));
             }
         }
-        let mut rt = out.lock().unwrap();
+        let mut rt = out.lock().unwrap_or_else(|e| e.into_inner());
         if rt.execs.is_empty() {
             rt.execs.push(ExecTrace::default());
             problems.push("next_task before new_execution".into());
@@ -442,7 +446,7 @@ impl<S: Scheduler> Scheduler for Recorder<S> {
 
     fn next_u64(&mut self) -> u64 {
         let v = self.inner.next_u64();
-        let mut rt = self.out.lock().unwrap();
+        let mut rt = self.out.lock().unwrap_or_else(|e| e.into_inner());
         if let Some(e) = rt.execs.last_mut() {
             e.items.push(Item::R(v));
         }
@@ -469,7 +473,7 @@ pub enum Policy {
     RoundRobin,
 }
 
-#[derive(Clone, Debug, Serialize, Deserialize)]
+#[derive(Clone, Debug, PartialEq, Serialize, Deserialize)]
 pub struct SimCfg {
     pub seed: u64,
     pub policy: Policy,
@@ -643,7 +647,7 @@ impl Scheduler for FollowSched {
             if let Some(t) = runnable.iter().find(|t| usize::from(t.id()) as u32 == want) {
                 return Some(t.id());
             }
-            let mut d = self.diverged.lock().unwrap();
+            let mut d = self.diverged.lock().unwrap_or_else(|e| e.into_inner());
             if d.is_none() {
                 *d = Some(format!(
                     "scripted task {} not offered at decision {} (offered {:?})",
@@ -691,7 +695,13 @@ pub fn payload_to_string(p: &(dyn std::any::Any + Send)) -> String {
 pub fn silence_panics() {
     static ONCE: std::sync::Once = std::sync::Once::new();
     ONCE.call_once(|| {
-        std::panic::set_hook(Box::new(|_| {}));
+        if std::env::var("VERIF_DEBUG_PANIC").is_ok() {
+            std::panic::set_hook(Box::new(|info| {
+                eprintln!("PANIC: {}", info);
+            }));
+        } else {
+            std::panic::set_hook(Box::new(|_| {}));
+        }
     });
 }
 
